@@ -378,9 +378,53 @@ def _coord_dtype(c):
     return np.dtype(c.get("dtype", "int64"))
 
 
+def _bed_for(c, iv, stranded, tag=""):
+    key = core.case_hash({"n": c["names"], "iv": iv, "s": bool(stranded)})
+    fn = os.path.join(_tmpdir(), f"{key}-{os.getpid()}{tag}.bed")
+    if not os.path.exists(fn):
+        with open(fn, "w") as fh:
+            for x in iv:
+                if stranded:
+                    fh.write(f"{c['names'][x[0]]}\t{x[1]}\t{x[2]}\t.\t0\t{'+' if x[3] else '-'}\n")
+                else:
+                    fh.write(f"{c['names'][x[0]]}\t{x[1]}\t{x[2]}\n")
+    return fn
+
+
+def _read_table(fn, stranded):
+    """the whole bed file as ONE table, as the file reader hands it out (columns parsed from the text on demand)"""
+    import bionumpy as bnp
+    from bionumpy.io.delimited_buffers import Bed6Buffer
+    f = bnp.open(fn, buffer_type=Bed6Buffer) if stranded else bnp.open(fn)
+    try:
+        return f.read()
+    finally:
+        f.close()
+
+
 def _mk_intervals(c, stranded):
+    """the table of the case's entries. `src` names where the table comes from (the SAME entries in every source):
+    built in memory from lists (default), `file`: read from a bed file written for the case (a lazily parsed table),
+    `file2`: two files holding the entries before / after `fcut`, read and joined with np.concatenate,
+    `filesel`: read from a file that holds extra rows, which are then removed by a boolean mask"""
     from bionumpy.datatypes import Interval, StrandedInterval
     iv = c["iv"]
+    src = c.get("src", "mem")
+    if src != "mem" and iv:
+        if src == "file":
+            return _read_table(_bed_for(c, iv, stranded), stranded)
+        if src == "file2":
+            k = c.get("fcut", len(iv) // 2)
+            parts = [p for p in (iv[:k], iv[k:]) if p]
+            return np.concatenate([_read_table(_bed_for(c, p, stranded, f"-p{j}"), stranded) for j, p in enumerate(parts)])
+        if src == "filesel":
+            # every entry is followed by a decoy row on the same chromosome; the decoys are masked out again
+            rows, keep = [], []
+            for x in iv:
+                rows += [x, [x[0], 0, 1, True]]
+                keep += [True, False]
+            return _read_table(_bed_for(c, rows, stranded, "-sel"), stranded)[np.array(keep)]
+        raise ValueError(src)
     if not iv:
         return (StrandedInterval if stranded else Interval).empty()
     names = [c["names"][x[0]] for x in iv]
@@ -608,7 +652,10 @@ def _call(c):
         loc = G.get_locations(LocationEntry([c["names"][x[0]] for x in c["pts"]], np.array([x[1] for x in c["pts"]], dtype=_coord_dtype(c))))
         w = loc.get_windows(flank=c["flank"]) if c.get("flank") is not None else loc.get_windows(window_size=c["wsize"])
         return _obs_intervals(c, w.chromosome, w.start, w.stop)
-    gi = G.get_intervals(_mk_intervals(c, stranded), stranded=stranded)
+    if c.get("src") == "file" and c["iv"]:
+        gi = G.read_intervals(_bed_for(c, c["iv"], stranded), stranded=stranded)     # the documented route from a file
+    else:
+        gi = G.get_intervals(_mk_intervals(c, stranded), stranded=stranded)
     if op in ("pileup", "mask"):
         t = gi.get_pileup() if op == "pileup" else gi.get_mask()
         d = t.to_dict()
@@ -936,6 +983,43 @@ def _boundary_merge_cases():
                                    "iv": [[0, a, s1, True], [1, 0, e, True]], "d": d}
 
 
+_SRCS = ("file", "file2", "filesel")
+
+
+def _profile_cases(big):
+    """how many entries each chromosome holds (0..3 each, every combination) x where the table comes from: the result
+    for one chromosome must not depend on the NUMBER of entries of its neighbours (a chromosome with exactly one entry
+    first / in the middle / last, chromosomes without entries anywhere), nor on the table being built in memory,
+    read from a file, joined from two files or selected from a larger file"""
+    names, sizes = ["chr1", "chr11", "chr2"], [6, 7, 5]
+    base = {"names": names, "sizes": sizes, "filt": True}
+    for counts in itertools.product(range(4), repeat=3):
+        if not any(counts):
+            continue
+        iv = []
+        for ci, n in enumerate(counts):
+            sz = sizes[ci]
+            # a chain of overlapping / touching entries, the last one (of three) apart at the chromosome end
+            chain = [[ci, 0, 2, True], [ci, 1, 4, False], [ci, sz - 1, sz, True]][:n] if n != 1 else [[ci, sz - 3, sz, ci % 2 == 0]]
+            iv += chain
+        for si, src in enumerate(("mem",) + _SRCS):
+            if not big and src != "mem" and (sum(counts) + si) % 3 and 1 not in counts:
+                continue
+            for via in ("genome", "geometry"):
+                for d in (0, 1):
+                    yield dict(base, op="merge", via=via, iv=iv, d=d, src=src, fcut=counts[0])
+                yield dict(base, op="sort", via=via, iv=iv[::-1], src=src, fcut=counts[2])
+                yield dict(base, op="extend", via=via, iv=iv, L=3, stranded=True, src=src, fcut=counts[0] + counts[1])
+                yield dict(base, op="clip", via=via, iv=iv, src=src, fcut=counts[0])
+            yield dict(base, op="pileup", via="genome", iv=iv, stranded=False, src=src, fcut=counts[0])
+            yield dict(base, op="mask", via="geometry", iv=iv, stranded=False, src=src, fcut=counts[0] + counts[1])
+            yield dict(base, op="location", iv=iv, stranded=True, where=sum(counts) % 3, src=src, fcut=counts[0])
+            yield dict(base, op="extract", iv=iv, stranded=True, vals=[[1, 2, 3, 4, 5, 6], [11, 12, 13, 14, 15, 16, 17], [21, 22, 23, 24, 25]],
+                       src=src, fcut=counts[0] + counts[1])
+            yield dict(base, op="seq", iv=iv, stranded=True, seqs=["ACGTAC", "GGATCCA", "TTGCA"], backend="dict" if sum(counts) % 2 else "fasta",
+                       src=src, fcut=counts[0])
+
+
 def _all_iv(sizes):
     return [[c, a, b, True] for c, sz in enumerate(sizes) for a in range(sz) for b in range(a, sz + 1)]
 
@@ -1035,6 +1119,7 @@ def _cases_main(tier, rng):            # created in the parent, before the worke
                 for _ in range(6 if big else 2):
                     yield dict(base, queries=[rng.choice(names + foreign) for _ in range(rng.choice([1, 2, 4]))])
     yield from _pair_cases(3 if big else 2)
+    yield from _profile_cases(big)
     # 2. random genomes x boundary-heavy entries x every entry point
     N = 3500 if big else 110
     for _ in range(N):
@@ -1075,6 +1160,19 @@ def _cases_main(tier, rng):            # created in the parent, before the worke
             ok, ig = _sorted_genome(iv, rank)
             merged_in = ok + ig if rng.random() < 0.5 else ig + ok
             yield dict(base, op="merge", via=via, iv=merged_in, d=rng.choice([0, 0, 1, 2]))
+            if ok:
+                # the same in-memory operations on a table that comes from a file (lazily parsed columns)
+                src = rng.choice(_SRCS)
+                fsrc = {"src": src, "fcut": rng.randint(0, len(ok))}
+                yield dict(base, op="merge", via=via, iv=merged_in if src == "file" else ok, d=rng.choice([0, 0, 1, 2]), **fsrc)
+                fop = rng.choice(["pileup", "mask", "sort", "clip", "extend", "location", "extract", "seq"])
+                if fop not in ("location", "extract", "seq") or (via == "genome" and (fop == "location" or all(s_ > 0 for s_ in sizes))):
+                    okf = [x for x in ok if x[1] < x[2]] if fop in ("extract", "seq") else ok
+                    if okf:
+                      yield dict(base, op=fop, via=via, iv=okf if fop != "sort" else rng.sample(ok, len(ok)), stranded=fop == "extend" or (via == "genome" and rng.random() < 0.5),
+                                 L=rng.choice([0, 1, 3, 7]), where=rng.choice([0, 1, 2]), backend=rng.choice(["dict", "fasta"]),
+                                 vals=[[rng.choice([0, 1, 1, 2, 7]) for _ in range(s_)] for s_ in sizes],
+                                 seqs=["".join(rng.choice("ACGT") for _ in range(s_)) for s_ in sizes], **fsrc)
             if ok and rng.random() < 0.5:
                 # a negative start (preferably on a chromosome that HAS a left neighbour) / a stop before the start
                 badz = [list(x) for x in ok]
